@@ -188,7 +188,7 @@ fn enumerate(w: &World, reg: Reg, h: &History, st: &mut Stats) -> Result<(), Fai
             // loop then simply needs that many draws; any other way out of the loop must still respect
             // the mask)
             for second in [0u32, 0x9E3779B9, 1] {
-                let script = if second == 1 { vec![first; 600] } else { vec![first, second.wrapping_add(first * 7), first ^ 0x2A] };
+                let script = if second == 1 { vec![first; 600] } else { vec![first, second.wrapping_add(first.wrapping_mul(7)), first ^ 0x2A] };
                 let mut rng = DryRng::new(script, 7 + first as u64);
                 let front = &w.front;
                 let o = match catch(|| front.tx_outcome(&mut rng, join)) {
